@@ -33,13 +33,18 @@ UNK = ("tp_unknown", "lt_unknown")
 
 
 # ------------------------------------------------------------------------------------ TLC (R1)
-def _run_cfg(cfg):
+def _run_cfg(cfg, coverage=False):
     out = os.path.join(tlc.WORK, "c07-%s-%d.ndjson" % (cfg, os.getpid()))
     hdr = out + ".hdr"
     for p in (out, hdr):
         if os.path.exists(p):
             os.unlink(p)
-    r = tlc.run_tlc("MC_Lookup", cfg, env={"OUTFILE": out, "HDRFILE": hdr}, workers=4, timeout=1500)
+    r = tlc.run_tlc("MC_Lookup", cfg, env={"OUTFILE": out, "HDRFILE": hdr}, workers=4, timeout=1500,
+                    coverage=coverage)
+    if coverage:
+        vac = [a for a in ("TryEntry", "DropSuffix", "GiveUp") if r.coverage.get(a, (0, 0))[0] == 0]
+        if vac:
+            raise tlc.TLCError("%s: actions never taken: %s" % (cfg, vac))
     recs = tlc.read_emitted(out)
     h = tlc.read_emitted(hdr)
     for p in (out, hdr):
@@ -56,15 +61,18 @@ def _tlc_all(run, tier):
         cfgs.append((isa, "table", "MC_Lookup_%s_table" % isa, 1))
         if tier == "thorough":
             cfgs.append((isa, "lists", "MC_Lookup_%s_lists3" % isa, 3))
+            cfgs.append((isa, "cov", "MC_Lookup_%s_lists" % isa, 2))   # with -coverage: no action is vacuous
         else:
             cfgs.append((isa, "lists", "MC_Lookup_%s_lists" % isa, 2))
     out = {}
     with concurrent.futures.ThreadPoolExecutor(len(cfgs)) as ex:
-        futs = {ex.submit(_run_cfg, c[2]): c for c in cfgs}
+        futs = {ex.submit(_run_cfg, c[2], c[1] == "cov"): c for c in cfgs}
         for f in futs:
             isa, mode, cfg, maxlen = futs[f]
             _, r, hdr, recs = f.result()
-            run.add_mc(r, cfg)
+            run.add_mc(r, cfg + (" (-coverage)" if mode == "cov" else ""))
+            if mode == "cov":
+                continue
             a = len(hdr["entries"])
             n_lists = a if mode == "table" else sum(a ** k for k in range(1, maxlen + 1))
             expect = n_lists * len(hdr["qnames"]) * len(hdr["qops"])
@@ -769,6 +777,28 @@ def _validate(run, cases, info, label):
     run.add_traces(len(cases))
 
 
+def _selftest(run):
+    """Self-test of the binding: recorded lookups with a wrong `served` field must be rejected by
+    Trace_Lookup with the right clause, the correct record must be accepted."""
+    g, x = lc.K("reg", c="gpr"), lc.K("reg", c="xmm")
+    cs = [(_case("selftest|not-found", "x86", "op", [g], [("op", [g])], 0), "must-match-not-found"),
+          (_case("selftest|wrong-kind", "x86", "op", [g], [("op", [x])], 1), "wrong-kind"),
+          (_case("selftest|wrong-count", "x86", "op", [g], [("op", [g, g])], 1), "wrong-count"),
+          (_case("selftest|second", "x86", "OP", [g], [("op", [g]), ("Op", [g])], 2), "earlier-must-match"),
+          (_case("selftest|wrong-name", "x86", "op", [g], [("oq", [g])], 1), "wrong-mnemonic"),
+          (_case("selftest|fallback", "x86", "opq", [g], [("op", [g]), ("opq", [g])], 1), "fallback-shadows-own"),
+          (_case("selftest|a64-shape", "aarch64", "op.s", [lc.K("reg", c="v", s="s")],
+                 [("op", [lc.K("reg", c="v", s="d")])], 1), "wrong-kind"),
+          (_case("selftest|ok", "x86", "opq", [g], [("op", [x]), ("OP", [g])], 2), None)]
+    rej, r = tlc.batch_validate("Trace_Lookup", "Trace_Lookup", [c for c, _ in cs], tag="c07-selftest")
+    run.add_mc(r, "Trace_Lookup_selftest")
+    got = {cid: clause for cid, clause, _ in rej}
+    wrong = [(c["id"], exp, got.get(c["id"])) for c, exp in cs if got.get(c["id"]) != exp]
+    if wrong:
+        raise RuntimeError("self-test of Trace_Lookup failed: %s" % wrong)
+    run.note("selftest", {"corrupted_records_rejected": len(cs) - 1})
+
+
 def main(tier, seed):
     run = Run(PID, tier, seed)
     rnd = random.Random("%s-c07" % seed)
@@ -809,6 +839,7 @@ def main(tier, seed):
     run.note("r3_shipped_cases", len(scases))
     run.note("t_r3_drive_s", round(time.time() - t0, 1))
     t0 = time.time()
+    _selftest(run)
     _validate(run, cases, info, "rand")
     _validate(run, scases, sinfo, "ship")
     run.note("t_r3_validate_s", round(time.time() - t0, 1))
@@ -832,6 +863,21 @@ def main(tier, seed):
     return run.finish()
 
 
+def _replay_synthetic(isa, entries, line):
+    """entries: [(name, [kinds])] in file order; rebuilds a model with exactly these entries and
+    runs the recorded line through the parser, assign_src_dst and assign_tp_lt."""
+    forms = [_form(n, [lc.entry_yaml(isa, k) for k in ks], j) for j, (n, ks) in enumerate(entries, 1)]
+    mm, sem, parser = _build(isa, forms, "replay", mirror_isa=True)
+    spy, ispy = Spy(mm), Spy(sem._isa_model)
+    form = parser.parse_line(line)
+    own, reg, unknown = _assign(sem, spy, form)
+    iown = next((x for _, wild, x in ispy.take() if not wild and x is not None), None)
+    pos = lambda x: 0 if x is None else int(x.latency)  # noqa
+    print("line %r: assign_tp_lt applied entry %d (register form %d, unknown=%s); assign_src_dst used ISA entry %d" % (
+        line, pos(own), pos(reg), unknown, pos(iown)))
+    return pos(own), pos(iown), form
+
+
 def replay(path):
     with open(path) as f:
         rec = json.load(f)
@@ -839,7 +885,8 @@ def replay(path):
     print("replaying", rec["signature"])
     print(rec["what"])
     line = c.get("line")
-    if c.get("stage") == "r3-shipped":
+    stage = c.get("stage")
+    if stage == "r3-shipped":
         mm, sem, parser = synth.load_arch(c["arch"])
         spy = Spy(mm)
         form = parser.parse_line(line)
@@ -848,10 +895,33 @@ def replay(path):
             line, None if own is None else (own.mnemonic, [str(o)[:40] for o in own.operands], own.latency),
             reg is not None, unknown))
         case = c.get("case")
-        if case:
-            rej, _ = tlc.batch_validate("Trace_Lookup", "Trace_Lookup", [case], tag="c07-replay")
-            print("specification:", rej if rej else "accepts the recorded result")
-            return 1 if rej else 0
+        rej, _ = tlc.batch_validate("Trace_Lookup", "Trace_Lookup", [case], tag="c07-replay")
+        print("specification on the recorded case:", rej if rej else "accepts")
+        return 1 if rej else 0
+    isa = c["isa"]
+    if stage == "r2-table":
+        mn = line.split()[0]
+        e, w = c["entry"], c["written"]
+        if isa == "aarch64":
+            pad = lc.K("reg", c="x")
+            ents = [(mn, [e, pad] if mn.startswith("tl") else [pad, e])]
+            qops = [w, pad] if mn.startswith("tl") else [pad, w]
+        else:
+            ents, qops = [(mn, [e])], [w]
+        qname = mn
+    elif stage == "r2-lists":
+        mn = line.split()[0]
+        qn = "".join(c["query"]["n"])
+        prefix = mn[:len(mn) - len(qn)].lower()
+        ents = [(prefix + "".join(x["n"]), x["ops"]) for x in c["entries"]]
+        qname, qops = mn, c["query"]["ops"]
     else:
-        print(json.dumps({k: v for k, v in c.items() if k != "case"}, indent=1, default=str)[:3000])
-    return 0
+        case = c["case"]
+        ents = [("".join(x["n"]), x["ops"]) for x in case["entries"]]
+        qname, qops = "".join(case["qn"]), case["qops"]
+    own, iown, form = _replay_synthetic(isa, ents, line)
+    cases = [_case("replay|assign_tp_lt", isa, qname, qops, ents, own),
+             _case("replay|assign_src_dst", isa, qname, qops, ents, iown)]
+    rej, _ = tlc.batch_validate("Trace_Lookup", "Trace_Lookup", cases, tag="c07-replay")
+    print("specification:", [(cid, clause) for cid, clause, _ in rej] if rej else "accepts both lookups")
+    return 1 if rej else 0
